@@ -111,6 +111,32 @@ fn cmd_run(args: &[String]) -> i32 {
     let sandbox = std::fs::canonicalize(&sandbox).map(|p| p.to_string_lossy().to_string()).unwrap_or(sandbox);
     let min_budget = Duration::from_millis(arg_u64(args, "--minimise-ms", 60_000));
     let keep_going = args.iter().any(|a| a == "--keep-going");
+    // open known findings (genuine defects recorded rather than repaired): a violation that matches
+    // one is recorded as such and the worker goes on; anything else is a violation
+    let known: Vec<Value> = arg(args, "--known")
+        .and_then(|p| std::fs::read_to_string(p).ok())
+        .and_then(|t| serde_json::from_str::<Value>(&t).ok())
+        .and_then(|v| v["open"].as_array().cloned())
+        .unwrap_or_default();
+    let matches_known = |prop: &str, oracle: &str, detail: &str, case: &Case| -> Option<String> {
+        let text = format!("{detail}\n{}", case.to_json());
+        for e in &known {
+            if e["property"].as_str() != Some(prop) {
+                continue;
+            }
+            if let Some(o) = e["oracle"].as_str() {
+                if o != oracle {
+                    continue;
+                }
+            }
+            let all = e["all_of"].as_array().map(|a| a.iter().all(|n| n.as_str().map(|n| text.contains(n)).unwrap_or(true))).unwrap_or(true);
+            let none = e["none_of"].as_array().map(|a| a.iter().all(|n| n.as_str().map(|n| !text.contains(n)).unwrap_or(true))).unwrap_or(true);
+            if all && none {
+                return Some(e["id"].as_str().unwrap_or("?").to_string());
+            }
+        }
+        None
+    };
     // optional: every run uses this network (a bundled benchmark model) instead of a generated one
     let model_text: Option<String> = arg(args, "--model-file").map(|p| {
         let bn = biodivine_lib_param_bn::BooleanNetwork::try_from_file(p).unwrap_or_else(|e| {
@@ -169,7 +195,12 @@ fn cmd_run(args: &[String]) -> i32 {
         if done < samples {
             line["sample"] = case.to_json();
         }
-        if let Some(v) = &rep.violation {
+        if let Some(id) = rep.violation.as_ref().and_then(|v| matches_known(&prop, &v.oracle, &v.detail, &case)) {
+            let v = rep.violation.clone().unwrap();
+            line["known_finding"] = json!({"id": id, "oracle": v.oracle, "detail": v.detail});
+            let _ = writeln!(out, "{line}");
+            let _ = out.flush();
+        } else if let Some(v) = &rep.violation {
             // 1. record the violation as found (explicit case, replayable) before anything else
             let _ = std::fs::create_dir_all(&replay_dir);
             let path = format!("{replay_dir}/{prop}-{seed}-{idx}.json");
